@@ -176,7 +176,11 @@ VTick(h, L) ==
        \* (existence of the session's report is the clause above; no CHOOSE here: a missing report must be a verdict, not an evaluation error)
        V(\A sd \in seids : \A o \in Rng(srrs) : (o.seid = SessOf(h, sd).cp /\ o.to = NodePeer(SessOf(h, sd).node)) =>
             ({r.urr : r \in Rng(o.rpts)} = {x.id : x \in {y \in reg : y.seid = sd}} /\ Len(o.rpts) = Cardinality({y \in reg : y.seid = sd})),
-         "C15:a registered URR's periodic report is missing or duplicated") }
+         "C15:a registered URR's periodic report is missing or duplicated"),
+       \* every periodic report reaches the session it was measured for, with the measured volume
+       V(\A sd \in seids : \A o \in Rng(srrs) : (o.seid = SessOf(h, sd).cp /\ o.to = NodePeer(SessOf(h, sd).node)) =>
+            \A r \in Rng(o.rpts) : \E k \in Rng(L.mqr) : k.seid = sd /\ k.urr = r.urr /\ k.tv = r.vals.tv,
+         "C15:a periodic report was delivered to another session than the one it was measured for, or with other values") }
 \* one ticker per period that has a registered URR
 VTickers(h2, L) ==
   V(L.tickers = Cardinality({x.period : x \in {y \in h2.urr : y.perio}}), "C15:number of period tickers differs from the number of periods with registered URRs")
